@@ -11,6 +11,7 @@ from . import ssa as S
 from .spec import parse_expr, SpecError
 
 MAXLEN = 2 ** 47
+NEGFAR = I(-(2 ** 62))
 
 
 class Obligation(object):
@@ -276,6 +277,8 @@ class Exec(object):
         if self.opts.get('ground'):
             return
         for b in self.base_consts(h):
+            if b.val.startswith('H:'):
+                continue        # a named merge of other heaps: its validity follows from theirs
             key = ('valid', b.val)
             if key in self.ctx.assumptions:
                 continue
@@ -292,8 +295,12 @@ class Exec(object):
                     continue
                 self.ctx.assume(forall(vs, and_(le(I(rng[0]), v), le(v, I(rng[1]))), [v]))
             else:
+                # pointers: nil is 0, allocated objects are positive, sub-objects (fields, elements) have negative addresses
                 bound = self.ctx.heap_bound.get(b.val)
-                self.ctx.assume(forall(vs, and_(le(ZERO, v), lt(v, bound)) if bound is not None else le(ZERO, v), [v]))
+                # (only holders that exist at that point are constrained: what an unallocated address "holds" is arbitrary,
+                #  which is how the contents of objects allocated by callees are modelled)
+                if bound is not None:
+                    self.ctx.assume(forall(vs, implies(lt(a, bound), lt(v, bound)), [v]))
 
     def valid_header_heaps(self, st, hs, is_slice):
         """hs: dict part->heap term for a slice/string header stored in field heaps"""
@@ -304,6 +311,8 @@ class Exec(object):
             bs = self.base_consts(h)
             if len(bs) != 1 or h.op != 'const':
                 return
+            if bs[0].val.startswith('H:'):
+                return          # a named merge of other heaps: its validity follows from theirs
             bases[part] = bs[0]
         key = ('validhdr',) + tuple(sorted((p, b.val) for p, b in bases.items()))
         if key in self.ctx.assumptions:
@@ -312,13 +321,13 @@ class Exec(object):
         p = const('p!', INT)
         g = lambda part: select(bases[part], p)
         if is_slice:
-            body = and_(le(ZERO, g('arr')), le(ZERO, g('off')), le(ZERO, g('len')), le(g('len'), g('cap')), le(add(g('off'), g('cap')), I(MAXLEN)),
+            body = and_(lt(NEGFAR, g('arr')), le(ZERO, g('off')), le(ZERO, g('len')), le(g('len'), g('cap')), le(add(g('off'), g('cap')), I(MAXLEN)),
                         implies(eq(g('arr'), ZERO), eq(g('cap'), ZERO)))
         else:
-            body = and_(le(ZERO, g('arr')), le(ZERO, g('off')), le(ZERO, g('len')), le(add(g('off'), g('len')), I(MAXLEN)))
+            body = and_(lt(NEGFAR, g('arr')), le(ZERO, g('off')), le(ZERO, g('len')), le(add(g('off'), g('len')), I(MAXLEN)))
         bound = self.ctx.heap_bound.get(bases['arr'].val)
         if bound is not None:
-            body = and_(body, lt(g('arr'), bound))
+            body = and_(body, implies(lt(p, bound), lt(g('arr'), bound)))
         self.ctx.assume(forall([p], body, [g('len')]))
         self.ctx.assume(forall([p], body, [g('arr')]))
         if is_slice:
@@ -399,39 +408,60 @@ class Exec(object):
             c = implies(guard, c)
         self.oblige(st, 'own-write', self.cur_src_detail(), c, {'clause': 'memory already handed to the consumer is not written'}, {'C06'})
 
-    def elemaddr(self, a, i):
-        self.ctx.declare_fun('elem', (INT, INT), INT)
+    # Address space.  nil = 0; allocated roots are positive; sub-objects (fields, elements) of ordinary objects
+    # lie in (-FAR, 0); the storage of *private* package variables (unexported, address never escapes: see
+    # Program.private_globals) lies below -FAR.  Every pointer or slice base held in a parameter, a result or a
+    # heap cell is above -FAR, so nothing can alias private package storage.
+    def addr_range(self, e, far):
+        return lt(e, NEGFAR) if far else and_(lt(NEGFAR, e), lt(e, ZERO))
+
+    def term_is_far(self, a):
+        if a.op == 'const':
+            return a.val in getattr(self.ctx, 'private_g', ())
+        if a.op == 'app':
+            return a.val.split('/')[0] == 'gelem' or a.val.startswith('gsub:')
+        return False
+
+    def elemaddr(self, a, i, far=None):
+        far = self.term_is_far(a)
+        fn_ = 'gelem' if far else 'elem'
+        self.ctx.declare_fun(fn_, (INT, INT), INT)
         if self.opts.get('ground'):
-            r_ = app('elem', (a, i), INT)
+            r_ = app(fn_, (a, i), INT)
             if ('ge', r_) not in self.ctx.assumptions and not self.has_bound_term(r_):
                 self.ctx.assumptions.add(('ge', r_))
-                self.ctx.assume(lt(r_, ZERO))
+                self.ctx.assume(self.addr_range(r_, far))
             return r_
-        if 'elem' not in self.ctx.assumptions:
-            self.ctx.assumptions.add('elem')
-            self.ctx.declare_fun('elem.a', (INT,), INT)
-            self.ctx.declare_fun('elem.i', (INT,), INT)
+        if fn_ not in self.ctx.assumptions:
+            self.ctx.assumptions.add(fn_)
+            self.ctx.declare_fun(fn_ + '.a', (INT,), INT)
+            self.ctx.declare_fun(fn_ + '.i', (INT,), INT)
             x, y = const('x!', INT), const('y!', INT)
-            e = app('elem', (x, y), INT)
-            self.ctx.assume(forall([x, y], and_(eq(app('elem.a', (e,), INT), x), eq(app('elem.i', (e,), INT), y), lt(e, ZERO)), [e]))
-        return app('elem', (a, i), INT)
+            e = app(fn_, (x, y), INT)
+            self.ctx.assume(forall([x, y], and_(eq(app(fn_ + '.a', (e,), INT), x), eq(app(fn_ + '.i', (e,), INT), y), self.addr_range(e, far)), [e]))
+        return app(fn_, (a, i), INT)
 
-    def subaddr(self, stid, fname, p):
-        fn_ = 'sub:%s.%s' % (self.tname(stid), fname)
+    def subaddr(self, stid, fname, p, far=None):
+        far = self.term_is_far(p)
+        fn_ = '%s:%s.%s' % ('gsub' if far else 'sub', self.tname(stid), fname)
         if self.opts.get('ground'):
             self.ctx.declare_fun(fn_, (INT,), INT)
             r_ = app(fn_, (p,), INT)
             if ('gs', r_) not in self.ctx.assumptions and not self.has_bound_term(r_):
                 self.ctx.assumptions.add(('gs', r_))
-                self.ctx.assume(lt(r_, ZERO))
+                self.ctx.assume(self.addr_range(r_, far))
             return r_
         if fn_ not in self.ctx.declared:
             self.ctx.declare_fun(fn_, (INT,), INT)
             self.ctx.declare_fun(fn_ + '~', (INT,), INT)
             x = const('x!', INT)
             e = app(fn_, (x,), INT)
-            self.ctx.assume(forall([x], and_(eq(app(fn_ + '~', (e,), INT), x), lt(e, ZERO)), [e]))
+            self.ctx.assume(forall([x], and_(eq(app(fn_ + '~', (e,), INT), x), self.addr_range(e, far)), [e]))
         return app(fn_, (p,), INT)
+
+    def is_far(self, a):
+        r = self.addr_root(a)
+        return r[0] == 'glob' and isinstance(r[2], T) and r[2].op == 'const' and r[2].val in getattr(self.ctx, 'private_g', ())
 
     def wrap_scalar(self, term, tid, st=None):
         k = self.kind(tid)
@@ -456,13 +486,64 @@ class Exec(object):
             return v.term
         if isinstance(v, FuncV):
             if v.term is None:
-                v.term = self.ctx.fresh('fn:' + short_fn(v.name), INT)
+                if v.bindings:
+                    v.term = self.ctx.fresh('fn:' + short_fn(v.name), INT)
+                else:
+                    v.term = self.ctx.declare_const('FN:' + v.name, INT)    # one value per declared function
                 self.ctx.assume(lt(ZERO, v.term))
                 if not hasattr(self.ctx, 'fn_consts'):
                     self.ctx.fn_consts = {}
                 self.ctx.fn_consts[v.term.val] = v
             return v.term
         raise Unsupported('scalar_term of %r' % (v,))
+
+    # small fixed arrays of scalars ([2]int32, [4]uint16, ...) are stored like struct fields: one heap per index,
+    # keyed by the array object's address.  They never share a heap with slices of the same element type.
+    def small_arr(self, tid):
+        if self.kind(tid) != 'array':
+            return False
+        u = self.U(tid)
+        if not (1 <= u['len'] <= 4 and self.is_scalar(u['elem']) and not self.is_string(u['elem'])):
+            return False
+        return tid not in self.prog.sliced_arrays()
+
+    def sa_heap(self, st, tid, j):
+        u = self.U(tid)
+        name = 'HA:%s.%d' % (self.tname(tid), j)
+        return name, self.heap_get(st, name, arr(self.sort_of(u['elem'])))
+
+    def sa_load(self, st, tid, p, i):
+        u = self.U(tid)
+        vals = []
+        for j in range(u['len']):
+            nm, h = self.sa_heap(st, tid, j)
+            self.valid_scalar_heap(h, u['elem'], False)
+            vals.append(select(h, p))
+        if i.is_int():
+            return self.wrap_scalar(vals[i.val], u['elem'], st)
+        r = vals[-1]
+        for j in range(u['len'] - 2, -1, -1):
+            r = ite(eq(i, I(j)), vals[j], r)
+        return self.wrap_scalar(r, u['elem'], st)
+
+    def sa_store(self, st, tid, p, i, v):
+        u = self.U(tid)
+        vt = self.scalar_term(v)
+        for j in range(u['len']):
+            nm, h = self.sa_heap(st, tid, j)
+            if i.is_int():
+                if i.val == j:
+                    st.heap[nm] = store(h, p, vt)
+            else:
+                st.heap[nm] = store(h, p, ite(eq(i, I(j)), vt, select(h, p)))
+
+    def addr_type(self, a):
+        k = a[0]
+        if k in ('obj', 'glob'):
+            return a[1]
+        if k in ('fld', 'idx', 'sel'):
+            return a[3]
+        return None
 
     def field_heap(self, st, stid, path, sort):
         return self.heap_get(st, 'HF:%s.%s' % (self.tname(stid), path), arr(sort))
@@ -540,6 +621,8 @@ class Exec(object):
             return StructV(tid, dict((f['name'], self.field_load(st, tid, p, f['name'], f['type'])) for f in self.struct_fields(tid)))
         if k == 'array':
             u = self.U(tid)
+            if self.small_arr(tid):
+                return ArrV(tid, [self.sa_load(st, tid, p, I(i)) for i in range(u['len'])], u['elem'])
             if u['len'] > 16:
                 raise Unsupported('whole-array load of %s' % tid)
             return ArrV(tid, [self.elem_load(st, u['elem'], p, I(i)) for i in range(u['len'])], u['elem'])
@@ -569,7 +652,10 @@ class Exec(object):
         elif k == 'array':
             u = self.U(tid)
             for i, e in enumerate(v.elems):
-                self.elem_store(st, u['elem'], p, I(i), e)
+                if self.small_arr(tid):
+                    self.sa_store(st, tid, p, I(i), e)
+                else:
+                    self.elem_store(st, u['elem'], p, I(i), e)
         else:
             raise Unsupported('obj_store kind %s' % k)
 
@@ -610,7 +696,7 @@ class Exec(object):
         if self.is_string(tid):
             a, o, l = c.fresh(prefix + '.arr', INT), c.fresh(prefix + '.off', INT), c.fresh(prefix + '.len', INT)
             if valid:
-                c.assume(and_(le(ZERO, a), le(ZERO, o), le(ZERO, l), le(add(o, l), I(MAXLEN))))
+                c.assume(and_(lt(NEGFAR, a), le(ZERO, o), le(ZERO, l), le(add(o, l), I(MAXLEN))))
                 if bound_t is not None:
                     c.assume(lt(a, bound_t))
             return StrV(a, o, l)
@@ -627,7 +713,7 @@ class Exec(object):
         if k == 'pointer':
             t = c.fresh(prefix, INT)
             if valid:
-                c.assume(le(ZERO, t))
+                c.assume(lt(NEGFAR, t))
                 if bound_t is not None:
                     c.assume(lt(t, bound_t))
             return PtrV(t, self.U(tid)['elem'])
@@ -635,11 +721,13 @@ class Exec(object):
             t = c.fresh(prefix, INT)
             if valid:
                 c.assume(le(ZERO, t))
+                if bound_t is not None and k in ('map', 'chan'):
+                    c.assume(lt(t, bound_t))
             return Opaque(t, tid)
         if k == 'slice':
             a, o, l, cp = [c.fresh(prefix + s, INT) for s in ('.arr', '.off', '.len', '.cap')]
             if valid:
-                c.assume(and_(le(ZERO, a), le(ZERO, o), le(ZERO, l), le(l, cp), le(add(o, cp), I(MAXLEN))))
+                c.assume(and_(lt(NEGFAR, a), le(ZERO, o), le(ZERO, l), le(l, cp), le(add(o, cp), I(MAXLEN))))
                 c.assume(implies(eq(a, ZERO), eq(cp, ZERO)))
                 if bound_t is not None:
                     c.assume(lt(a, bound_t))
@@ -664,13 +752,13 @@ class Exec(object):
                 if r:
                     c.assume(and_(le(I(r[0]), v), le(v, I(r[1]))))
         elif isinstance(v, SliceV):
-            c.assume(and_(le(ZERO, v.arr), le(ZERO, v.off), le(ZERO, v.len), le(v.len, v.cap), le(add(v.off, v.cap), I(MAXLEN)),
+            c.assume(and_(lt(NEGFAR, v.arr), le(ZERO, v.off), le(ZERO, v.len), le(v.len, v.cap), le(add(v.off, v.cap), I(MAXLEN)),
                           implies(eq(v.arr, ZERO), eq(v.cap, ZERO))))
         elif isinstance(v, StrV):
-            c.assume(and_(le(ZERO, v.arr), le(ZERO, v.off), le(ZERO, v.len), le(add(v.off, v.len), I(MAXLEN))))
+            c.assume(and_(lt(NEGFAR, v.arr), le(ZERO, v.off), le(ZERO, v.len), le(add(v.off, v.len), I(MAXLEN))))
         elif isinstance(v, PtrV):
             if v.term is not None:
-                c.assume(le(ZERO, v.term))
+                c.assume(lt(NEGFAR, v.term))
         elif isinstance(v, StructV):
             for f in self.struct_fields(v.tid):
                 self.assume_valid(v.f[f['name']], f['type'])
@@ -782,6 +870,9 @@ class Exec(object):
                 bv = self.load(st, base)
                 return self.arr_select(bv, i)
             p = self.addr_term(st, base)
+            at_ = self.addr_type(base)
+            if at_ is not None and self.small_arr(at_):
+                return self.sa_load(st, at_, p, i)
             return self.elem_load_checked(st, etid, p, i)
         if k == 'sel':
             _, sl, i, etid = a
@@ -815,10 +906,10 @@ class Exec(object):
             return a[2]
         if k == 'fld':
             _, base, fname, ftid, stid = a
-            return self.subaddr(stid, fname, self.addr_term(st, base))
+            return self.subaddr(stid, fname, self.addr_term(st, base), self.is_far(base))
         if k == 'idx':
             _, base, i, etid = a
-            return self.elemaddr(self.addr_term(st, base), i)
+            return self.elemaddr(self.addr_term(st, base), i, self.is_far(base))
         if k == 'sel':
             _, sl, i, etid = a
             return self.elemaddr(sl.arr, add(sl.off, i))
@@ -854,6 +945,11 @@ class Exec(object):
                 self.store(st, base, self.arr_update(bv, i, v))
                 return
             p = self.addr_term(st, base)
+            at_ = self.addr_type(base)
+            if at_ is not None and self.small_arr(at_):
+                self.frame_check_obj(st, p, at_)
+                self.sa_store(st, at_, p, i, v)
+                return
             if self.is_scalar(etid):
                 self.frame_check_elem(st, etid, p, i)
             else:
@@ -886,7 +982,10 @@ class Exec(object):
                 out.append(('HF:' + self.prog.short(tid) + '.' + s, ARR_II, False, via))
         elif k == 'array':
             e = self.U(tid)['elem']
-            if self.is_scalar(e):
+            if self.small_arr(tid):
+                for j in range(self.U(tid)['len']):
+                    out.append(('HA:%s.%d' % (self.tname(tid), j), arr(self.sort_of(e)), False, via))
+            elif self.is_scalar(e):
                 out.append((self.hs_name(e), self.hs_sort(e), True, via))
             else:
                 raise Unsupported('array of aggregates inside an aggregate element (%s)' % tid)
@@ -1012,6 +1111,8 @@ class Exec(object):
                 for name in list(st.heap):
                     if name.startswith(pref) and (r[3] is None or name[len(pref):] == r[3] or name[len(pref):].startswith(r[3] + '.')):
                         by_heap.setdefault(name, []).append(r)
+                    elif name.startswith('HA:%s.' % r[1]):
+                        by_heap.setdefault(name, []).append(r)
                 if ('HB:' + r[1]) in st.heap:
                     by_heap.setdefault('HB:' + r[1], []).append(r)
             elif r[0] == 'objs':
@@ -1104,9 +1205,15 @@ class Exec(object):
             g = self.ctx.declare_const('G:' + self.prog.short(v['n']), INT)
             if ('G', v['n']) not in self.ctx.assumptions:
                 self.ctx.assumptions.add(('G', v['n']))
-                self.ctx.assume(gt_(g))
-                if self.alloc0 is not None:
-                    self.ctx.assume(lt(g, self.alloc0))
+                if v['n'] in self.prog.private_globals():
+                    if not hasattr(self.ctx, 'private_g'):
+                        self.ctx.private_g = set()
+                    self.ctx.private_g.add(g.val)
+                    self.ctx.assume(lt(g, NEGFAR))
+                else:
+                    self.ctx.assume(gt_(g))
+                    if self.alloc0 is not None:
+                        self.ctx.assume(lt(g, self.alloc0))
             return PtrV(g, gt, ('glob', gt, g))
         if k == 'func':
             return FuncV(v['n'])
